@@ -27,7 +27,24 @@ def parse(path):
     return exp, ben, what
 
 
-def run_one(path, repo='/repo'):
+def run_patch(patch, repo, pids):
+    """apply `patch` to a scratch copy of `repo`, run the checks of `pids`; -> {pid: [violation keys]} or None"""
+    d = tempfile.mkdtemp(prefix='seqio-mut-')
+    try:
+        subprocess.run(['rsync', '-a', '--exclude', 'target', '--exclude', '.git', repo + '/', d + '/'], check=True)
+        r = subprocess.run(['patch', '-p1', '--no-backup-if-mismatch', '-s', '-i', patch], cwd=d, stdout=subprocess.PIPE, stderr=subprocess.STDOUT, text=True)
+        if r.returncode != 0:
+            return None
+        out = {}
+        for pid in pids:
+            r = subprocess.run([os.path.join(ROOT, 'check'), pid, '--repo', d, '--evidence-dir', os.path.join(d, '.evidence')], stdout=subprocess.PIPE, stderr=subprocess.STDOUT, text=True)
+            out[pid] = re.findall(r'key=(.+)', r.stdout)
+        return out
+    finally:
+        shutil.rmtree(d, ignore_errors=True)
+
+
+def run_one(path, repo='/repo', only=None):
     name = os.path.relpath(path, HERE)
     exp, ben, what = parse(path)
     d = tempfile.mkdtemp(prefix='seqio-mut-')
@@ -39,6 +56,8 @@ def run_one(path, repo='/repo'):
         evd = os.path.join(d, '.evidence')
         res = {'name': name, 'what': what, 'status': 'ok', 'fired': [], 'detail': ''}
         for pid in sorted(set([p for p, _ in exp] + ben)):
+            if only is not None and pid != only:
+                continue
             r = subprocess.run([os.path.join(ROOT, 'check'), pid, '--repo', d, '--evidence-dir', evd],
                                stdout=subprocess.PIPE, stderr=subprocess.STDOUT, text=True)
             keys = re.findall(r'key=(.+)', r.stdout)
